@@ -42,11 +42,14 @@ class World:
         self.global_overrides = {}  # (relpath, name) -> value
         self.hash_keys = {}        # class name -> fn(interp,obj)->hashable
         self.attr_hooks = []       # fn(interp, v, name) -> value | NotImplementedVal
+        self.abstract = {}         # class name -> {'attr','index','contains','iter','call','len','truth','setitem'}
         self.top = None            # (relpath, qualname) of the function under verification (never replaced by its contract)
         self.types = {n: PyType(n) for n in ('str', 'int', 'float', 'bool', 'list', 'tuple', 'dict', 'set',
                                               'NoneType', 'object', 'type', 'frozenset', 'complex')}
         self._mro = {}
         self.builtins = self._make_builtins()
+        from . import loops
+        self.extern_truth['FilterSeq'] = loops.filterseq_truth
 
     # ---- classes --------------------------------------------------------------------------
     def resolve_bases(self, cls):
@@ -315,6 +318,14 @@ class World:
             return NotImplementedVal
         return h(interp, node, env)
 
+    # abstract objects: Obj whose class is a BuiltinClass with handlers registered in self.abstract[name]
+    def _abs(self, v, what):
+        if isinstance(v, Obj):
+            d = self.abstract.get(v.cls.name)
+            if d is not None:
+                return d.get(what)
+        return None
+
     # default hooks (overridable by contract modules via subclassing or attribute assignment)
     def truth_hook(self, interp, v):
         return None
@@ -323,6 +334,11 @@ class World:
         return None
 
     def extern_attr(self, interp, v, name):
+        h = self._abs(v, 'attr')
+        if h is not None:
+            r = h(interp, v, name)
+            if r is not NotImplementedVal:
+                return r
         for h in self.attr_hooks:
             r = h(interp, v, name)
             if r is not NotImplementedVal:
@@ -338,6 +354,9 @@ class World:
         return pybuiltins.value_attr(interp, v, name)
 
     def call_obj(self, interp, f, args, kwargs):
+        h = self._abs(f, 'call')
+        if h is not None:
+            return h(interp, f, args, kwargs)
         return NotImplementedVal
 
     def extern_binop(self, interp, op, a, b):
@@ -347,9 +366,15 @@ class World:
         return NotImplementedVal
 
     def extern_contains(self, interp, c, item):
+        h = self._abs(c, 'contains')
+        if h is not None:
+            return h(interp, c, item)
         return NotImplementedVal
 
     def extern_index(self, interp, v, idx):
+        h = self._abs(v, 'index')
+        if h is not None:
+            return h(interp, v, idx)
         return NotImplementedVal
 
     def contains_hook(self, interp, c, item):
@@ -362,13 +387,29 @@ class World:
         return NotImplementedVal
 
     def setitem_hook(self, interp, c, idx, v):
+        h = self._abs(c, 'setitem')
+        if h is not None:
+            return h(interp, c, idx, v)
         return NotImplementedVal
 
     def delitem_hook(self, interp, c, idx):
         return NotImplementedVal
 
     def iter_hook(self, interp, v):
+        h = self._abs(v, 'iter')
+        if h is not None:
+            return h(interp, v)
         return NotImplementedVal
+
+    def as_symseq(self, interp, v):
+        h = self._abs(v, 'symseq')
+        if h is not None:
+            return h(interp, v)
+        return None
+
+    def comp_hook(self, interp, node, seq, env):
+        from . import loops
+        return loops.comp_filter(interp, node, seq, env)
 
     def with_hook(self, interp, mgr):
         return NotImplementedVal
